@@ -2,6 +2,10 @@
 EXTENDS Mount
 P(segs, slash) == [segs |-> segs, slash |-> slash]
 MCPats == {P(<<>>, TRUE), P(<<"x">>, FALSE), P(<<"x">>, TRUE), P(<<"x", "y">>, FALSE), P(<<"twirp">>, FALSE), P(<<"api">>, TRUE)}
-MCExtras == {[pat |-> P(<<"metrics">>, FALSE), tag |-> "metrics"], [pat |-> P(<<"static">>, TRUE), tag |-> "static"]}
+MCExtrasPlain == {[pat |-> P(<<"metrics">>, FALSE), tag |-> "metrics", host |-> "", meth |-> ""],
+                  [pat |-> P(<<"static">>, TRUE), tag |-> "static", host |-> "", meth |-> ""]}
+MCExtras == MCExtrasPlain \cup {[pat |-> P(<<"debug">>, TRUE), tag |-> "debug", host |-> "admin.test", meth |-> ""],
+                                [pat |-> P(<<"metrics2">>, FALSE), tag |-> "metrics2", host |-> "", meth |-> "GET"]}
 MCPaths == {<<"x", "t">>, <<"x", "y", "t">>, <<"t">>, <<"xx", "t">>, <<"metrics">>, <<"static", "a">>, <<"twirp", "s", "m">>, <<"api", "t">>, <<"other">>}
+MCReqs == [path : MCPaths \cup {<<"debug", "vars">>, <<"metrics2">>, <<"x", "debug", "vars">>}, host : {"verif.test", "admin.test"}, meth : {"GET", "POST"}]
 =============================================================================
